@@ -177,12 +177,12 @@ let dispatch (op : string) (t : toks) : string =
        | WDateUnknown -> "date_unknown")
   | "msgread" ->
       let p = read_from (get_bytes t) in
-      let st = (match p.p_status with RfOk -> "ok" | RfHeaderErr -> "header_err" | RfSectionErr -> "section_err"
+      let st = (match p.p_status with RfOk -> "ok" | RfHeaderErr _ -> "header_err" | RfSectionErr _ -> "section_err"
                 | RfDateErr -> "date_err" | RfDateUnknown -> "date_unknown") in
       let show_hdr h = out_list (fun (k, vs) -> out_bytes k ^ " " ^ out_list out_bytes vs)
                          (List.sort (fun (a, _) (b, _) -> compare (hex_of_bytes a) (hex_of_bytes b)) h) in
       (match p.p_status with
-       | RfHeaderErr -> st
+       | RfHeaderErr _ -> st
        | _ -> String.concat " " [st; show_hdr p.p_hdr; out_bytes p.p_body;
                                  out_list (fun f -> out_bytes f.pf_data ^ " " ^ out_bytes f.pf_name ^ " " ^ out_bool f.pf_err) p.p_files])
   | "addr" ->
@@ -190,6 +190,41 @@ let dispatch (op : string) (t : toks) : string =
       String.concat " " [out_bytes a.a_proto; out_bytes a.a_addr; out_bytes (address_string a)]
   | "parsedate" ->
       (match parse_date_ok (get_bytes t) with Some true -> "ok" | Some false -> "error" | None -> "unknown")
+  | "cleanstring" -> out_bytes (clean_string (get_bytes t))
+  | "exchange" ->
+      let master = get_bool t in
+      let motd = get_list t get_bytes in
+      let fw = get_list t get_bytes in
+      let name = get_bytes t in let version = get_bytes t in
+      let target = get_bytes t in let mycall = get_bytes t in let locator = get_bytes t in
+      let gzip = get_bool t in
+      let cb = get_option t (fun t -> get_list t (fun t ->
+                 let pw = get_bytes t in let e = get_bool t in (pw, e))) in
+      let hs = { hs_fw = fw; hs_name = name; hs_version = version; hs_target = target;
+                 hs_mycall = mycall; hs_locator = locator; hs_master = master; hs_gzip = gzip; hs_cb = cb } in
+      let present = get_bool t in let prep_err = get_bool t in
+      let outbox = get_list t (fun t ->
+        let mid = get_bytes t in let et = get_bytes t in let pt = get_bytes t in
+        let size = get_int t in let cdata = get_bytes t in
+        { o_mid = mid; o_title = et; o_plain_title = pt; o_size = n_of_int size; o_cdata = cdata }) in
+      let policy = get_list t (fun t -> let mid = get_bytes t in
+        let a = (match get_int t with 0 -> AAccept | 1 -> AReject | _ -> ADefer) in (mid, a)) in
+      let fail = get_list t get_bytes in
+      let input = get_bytes t in
+      let h = { h_present = present; h_prepare_err = prep_err; h_outbox = outbox; h_gone = [];
+                h_policy = policy; h_fail = fail } in
+      let o = exchange { c_master = master; c_motd = motd; c_hs = hs; c_handler = h } input in
+      let rs = (match o.x_res with XNil -> "nil" | XConnLost -> "connlost" | XOther -> "other"
+                | XPanic -> "panic" | XOutOfFuel -> "fuel" | XUnknown -> "unknown") in
+      let evs = List.filter_map (fun e -> match e with
+        | EvPrepare -> Some "prep" | EvGetOutbound -> Some "getout"
+        | EvSetSent (m, r) -> Some ("sent:" ^ hex_of_bytes m ^ ":" ^ out_bool r)
+        | EvSetDeferred m -> Some ("defer:" ^ hex_of_bytes m)
+        | EvAnswer (m, a) -> Some ("ans:" ^ hex_of_bytes m ^ ":" ^ (match a with AAccept -> "+" | AReject -> "-" | ADefer -> "="))
+        | EvProcess (m, _, ok) -> Some ("proc:" ^ hex_of_bytes m ^ ":" ^ out_bool ok)
+        | EvBlockEnd -> None) o.x_events in
+      String.concat " " ["res=" ^ rs; out_bytes o.x_wire; out_list out_bytes o.x_sent;
+                         out_list out_bytes o.x_recv; "ev=" ^ String.concat "," evs]
   | _ -> raise Not_found
 
 let () =
